@@ -204,9 +204,39 @@ class C20(Prop):
         cans = list(range(16)); rng.shuffle(cans)
         align = [(src, "", cans[j % 16], j % 2, {"samples": base + 32 * j, "sigma_int16": 30, "seed": rng.randrange(10 ** 6)}, "noise", 20) for j in range(12 if quick else 48)]
         self.pipeline(ctx, mod, dem, align, "alignment")
+        self.cli_rejections(ctx, mod, dem)
         if not quick:
             mods, dems = self.programs(san=True)
             self.pipeline(ctx, mods, dems, cases[:6], "sanitized")
+            self.cli_rejections(ctx, mods, dems)
+
+    def cli_rejections(self, ctx, mod, dem):
+        """the argument checks of both programs (the property speaks of VALID callsigns and CAN 0..15): identifiers longer than 9 characters,
+        CAN outside 0..15, contradictory verbosity flags, a missing source, --help / --version - each must end the program by itself (no crash,
+        no signal, no hang) without emitting a transmission"""
+        audio = b"\x00\x01" * 4000
+        runs = [(mod, ["-S", "ABCDEFGHIJ"]), (mod, ["-S", "AB1CD", "-D", "ABCDEFGHIJK"]), (mod, ["-S", "AB1CD", "-C", "16"]), (mod, ["-S", "AB1CD", "-C", "-1"]),
+                (mod, ["-S", "AB1CD", "-q", "-v"]), (mod, []), (mod, ["--help"]), (mod, ["--version"]),
+                (dem, ["-q", "-v"]), (dem, ["-d", "-v"]), (dem, ["--help"]), (dem, ["--version"])]
+        for exe, args in runs:
+            name = "m17-mod" if exe == mod else "m17-demod"
+            ctx.count(("cli", name, tuple(args)), nontrivial=True)
+            ctx.stat("cli:" + name)
+            try:
+                p = subprocess.run([exe] + args, input=audio, stdout=subprocess.PIPE, stderr=subprocess.PIPE, timeout=60, env=core.san_env())
+                rc, out, err = p.returncode, p.stdout, p.stderr.decode(errors="replace")
+            except subprocess.TimeoutExpired:
+                rc, out, err = -999, b"", "TIMEOUT"
+            bad = None
+            if rc == -999:
+                bad = "did not exit within 60 s"
+            elif rc < 0 or rc > 1:
+                bad = f"ended with status {rc}: {core.first_err_line(err)}"
+            elif len(out) > 4000 and b"options" not in out[:400]:
+                bad = f"wrote {len(out)} bytes of output although its arguments are invalid"
+            if bad:
+                ctx.violate(f"cli:{name}:{'-'.join(a.strip('-') for a in args)[:30]}", f"{name} {' '.join(args)}: {bad}",
+                            {"stream": "cli", "cmd": [exe] + args, "stdin": "4000 int16 samples 0x0100", "stderr_tail": err[-600:]})
 
 
 PROP = C20()
